@@ -60,8 +60,9 @@ def run(sc):
         try: await api_mod.run_receiver_task(InMemoryBroker(), receiver_cls=Rec, **kw)
         except asyncio.CancelledError: pass
         return got
-    for A, P, prop, val, ack in itertools.product((1, 4), (0, 3), (True, False), (True, False), (None, AcknowledgeType.WHEN_EXECUTED)):
+    for A, P, prop, val, ack, SW in itertools.product((1, 4), (0, 3), (True, False), (True, False), (None, AcknowledgeType.WHEN_EXECUTED), (None, 2, 6)):
         n += 1; kw = dict(max_async_tasks=A, max_prefetch=P, propagate_exceptions=prop, validate_params=val, ack_time=ack)
+        if SW is not None: kw['sync_workers'] = SW          # the size of the thread pool for sync tasks is a separate option: it must not leak into the limits
         try: got = asyncio.run(via_api(kw))
         except BaseException as ex:
             fails.append({'key': f"run_receiver_task {kw}", 'failed_clauses': [f"C04: run_receiver_task failed with {type(ex).__name__}: {str(ex)[:100]}"]}); continue
@@ -81,6 +82,20 @@ def run(sc):
         pr = [f"{p_}: InMemoryBroker(max_async_tasks={A}, propagate_exceptions={prop}, cast_types={cast}) builds its receiver with {opt}={got.get(opt, '<not passed: the receiver default applies>')!r}"
               for opt, (v, ps) in want.items() if got.get(opt, DEFAULT.get(opt)) != v for p_ in ps]
         if pr: fails.append({'key': f"InMemoryBroker A={A} propagate={prop} cast={cast}", 'failed_clauses': pr})
+    # the receiver an InMemoryBroker actually USES, after the life-cycle calls a program makes (startup()): the options given to the broker still hold
+    for A, prop, cast in itertools.product((1, 4), (True, False), (True, False)):
+        n += 1
+        async def life():
+            bk = InMemoryBroker(max_async_tasks=A, propagate_exceptions=prop, cast_types=cast); await bk.startup()
+            r_ = bk.receiver; got = {'max_async_tasks': getattr(getattr(r_, 'sem', None), '_value', None), 'propagate_exceptions': r_.propagate_exceptions, 'validate_params': r_.validate_params}
+            await bk.shutdown(); return got
+        try: got = asyncio.run(life())
+        except BaseException as ex:
+            fails.append({'key': f"InMemoryBroker life-cycle A={A}", 'failed_clauses': [f"C12: InMemoryBroker startup failed with {type(ex).__name__}: {str(ex)[:100]}"]}); continue
+        want = {'max_async_tasks': (A, ['C03', 'C04']), 'propagate_exceptions': (prop, ['C12']), 'validate_params': (cast, ['C08'])}
+        pr = [f"{p_}: after InMemoryBroker(max_async_tasks={A}, propagate_exceptions={prop}, cast_types={cast}).startup() the broker's receiver has {opt}={got.get(opt)!r}"
+              for opt, (v, ps) in want.items() if got.get(opt) != v for p_ in ps]
+        if pr: fails.append({'key': f"InMemoryBroker after startup A={A} propagate={prop} cast={cast}", 'failed_clauses': pr})
     return {'reproduced': bool(fails), 'runs': n, 'n_failures': len(fails), 'failures': fails[:400], 'bound': '3 x 2 x 2 x 2 x 3 x 2 x 2 command lines through WorkerArgs.from_cli and start_listen with a recording receiver'}
 
 if __name__ == '__main__':
